@@ -368,7 +368,7 @@ theorem si_main_cAcq (cfg : Cfg) (s s' : State) (c : Ctl) (i : Nat) (hm : s.mpc 
   · cases h
 
 
-theorem si_main_pAcq (cfg : Cfg) (s s' : State) (a : List Int) (hm : s.mpc = .pAcq a)
+theorem si_main_pAcq (cfg : Cfg) (s s' : State) (a : List Int) (c : Nat) (hm : s.mpc = .pAcq a c)
     (h : stepMain cfg s = some s') (mi : MI s) (inv : SI s) : SI s' := by
   obtain ⟨g1, g2, g3, g4, g5, g6, g7⟩ := inv.g
   obtain ⟨m1, m2, m3, m4, m5, m6, m7, m8⟩ := mi
@@ -400,7 +400,7 @@ theorem si_main_pAcq (cfg : Cfg) (s s' : State) (a : List Int) (hm : s.mpc = .pA
       cases h
       have hT0 : s.terminated = 0 := m2 (by simpa using hfin)
       constructor
-      · have hc := fun k => pcAt_players_append (s := s) (s' := { s with mlock := some .main, players := s.players ++ [{ pc := .new, audio := a, all := chunksOf cfg.cs a, todo := chunksOf cfg.cs a, written := [], sst := .unopened, lk := none, go := false, halting := false }], mpc := .pGoSet s.players.length }) rfl k
+      · have hc := fun k => pcAt_players_append (s := s) (s' := { s with mlock := some .main, players := s.players ++ [{ pc := .new, audio := a, cs := c, all := chunksOf c a, todo := chunksOf c a, written := [], sst := .unopened, lk := none, go := false, halting := false }], mpc := .pGoSet s.players.length }) rfl k
         constructor <;> simp_all [creating, mainHoldsM]
       · refine SP_append (hs' := rfl) ?_ ?_
         · intro k q hk
@@ -564,7 +564,7 @@ theorem si_stepMain (cfg : Cfg) (s s' : State) (h : stepMain cfg s = some s')
     rw [g3 hn] at a; cases a
   cases hm : s.mpc <;>
   (first
-    | exact si_main_pAcq cfg s s' _ hm h ⟨m1, m2, m3, m4, m5, m6, m7, m8⟩ inv
+    | exact si_main_pAcq cfg s s' _ _ hm h ⟨m1, m2, m3, m4, m5, m6, m7, m8⟩ inv
     | exact si_main_pGoSet cfg s s' _ hm h ⟨m1, m2, m3, m4, m5, m6, m7, m8⟩ inv
     | exact si_main_pOpen cfg s s' _ hm h ⟨m1, m2, m3, m4, m5, m6, m7, m8⟩ inv
     | exact si_main_pStart cfg s s' _ hm h ⟨m1, m2, m3, m4, m5, m6, m7, m8⟩ inv
